@@ -12,11 +12,26 @@ struct TypeDecl {
     implicit: bool,
 }
 
-fn play(rng: &mut Rng, r: &mut Report, rp: &dyn Fn() -> Json, continue_existing: bool) {
+fn play(rng: &mut Rng, r: &mut Report, rp: &dyn Fn() -> Json, continue_existing: bool, focus: bool) {
     let sems = method_sems();
     let callable = |m: &&MethodSem| method(m.idx).call.is_some();
-    let types: Vec<&MethodSem> = sems.iter().filter(|m| m.class == MClass::Type && !m.name.starts_with("type_struct_continued")).filter(callable).collect();
-    let others: Vec<&MethodSem> = sems.iter().filter(|m| matches!(m.class, MClass::Global | MClass::Context) && m.opname.is_some()).filter(callable).collect();
+    let mut types: Vec<&MethodSem> = sems.iter().filter(|m| m.class == MClass::Type && !m.name.starts_with("type_struct_continued")).filter(callable).collect();
+    let mut others: Vec<&MethodSem> = sems.iter().filter(|m| matches!(m.class, MClass::Global | MClass::Context) && m.opname.is_some()).filter(callable).collect();
+    // "type graph" histories: the handful of type constructors a front end uses to build aggregate, pointer and
+    // recursive types (forward-declared pointers), a three-id operand pool and one storage class for the whole
+    // history, so that the arguments of different calls are related (a struct naming a forward-declared
+    // pointer, a pointer to that very struct in the same storage class, ...)
+    const FOCUS_TYPES: &[&str] = &["type_pointer", "type_struct", "type_struct_id", "type_array", "type_runtime_array", "type_function", "type_vector", "type_int", "type_float", "type_void", "type_bool", "type_image", "type_sampled_image"];
+    const FOCUS_OTHERS: &[&str] = &["type_forward_pointer", "type_opaque", "variable", "undef", "constant_bit32", "constant_null", "constant_composite", "decorate", "member_decorate", "name"];
+    let preferred_sc: u32 = *rng.pick(&[0u32, 1, 2, 3, 4, 5, 6, 7, 9, 12, 5349]);
+    if focus {
+        types.retain(|m| FOCUS_TYPES.contains(&m.name));
+        others.retain(|m| FOCUS_OTHERS.contains(&m.name));
+        if types.is_empty() || others.is_empty() {
+            r.inconclusive.push("C13 type-graph histories: the focus method lists match no Builder method".into());
+            return;
+        }
+    }
     let blocks: Vec<&MethodSem> = sems.iter().filter(|m| m.class == MClass::BlockInst).filter(callable).collect();
     // --- start state
     let start: u32 = if continue_existing { rng.range(1, 5000) as u32 } else { 1 };
@@ -27,6 +42,26 @@ fn play(rng: &mut Rng, r: &mut Report, rp: &dyn Fn() -> Json, continue_existing:
         if rng.chance(1, 2) && start >= 2 {
             // ids of the existing module lie below its bound
             m.types_global_values.push(dr::Instruction::new(rspirv::spirv::Op::TypeVoid, None, Some(start - 1), vec![]));
+        }
+        // ... and more than that: the scalar declarations later requests will name, in any multiplicity, some
+        // of them without a result id (a module value need not come from a loader), some under ids of their own
+        // (literal arguments of later requests come from the operand pool 7000..7003)
+        if rng.chance(1, 2) {
+            use rspirv::spirv::Op;
+            for _ in 0..rng.below(5) {
+                let (op, operands): (Op, Vec<dr::Operand>) = match rng.below(5) {
+                    0 => (Op::TypeVoid, vec![]),
+                    1 => (Op::TypeBool, vec![]),
+                    2 => (Op::TypeInt, vec![dr::Operand::LiteralBit32(7_000 + rng.below(2) as u32), dr::Operand::LiteralBit32(7_000 + rng.below(2) as u32)]),
+                    3 => (Op::TypeFloat, vec![dr::Operand::LiteralBit32(7_000 + rng.below(3) as u32)]),
+                    _ => (Op::TypeSampler, vec![]),
+                };
+                // distinct ids below the bound (declarations sharing an id would not be a module any request built)
+                let taken: Vec<u32> = m.types_global_values.iter().filter_map(|i| i.result_id).collect();
+                let cand = if start < 2 { 0 } else { 1 + rng.below(start as usize - 1) as u32 };
+                let id = if rng.chance(1, 3) || cand == 0 || taken.contains(&cand) { None } else { Some(cand) };
+                m.types_global_values.push(dr::Instruction::new(op, None, id, operands));
+            }
         }
         Builder::new_from_module(m)
     } else {
@@ -110,7 +145,7 @@ fn play(rng: &mut Rng, r: &mut Report, rp: &dyn Fn() -> Json, continue_existing:
                 _ => (*rng.pick(&blocks), "block"),
             };
             let call = method(sem.idx).call.unwrap();
-            let ctx = ArgCtx { small_pool: Some(pool.clone()), explicit_id_8: 3, insert_end_only: true, ..Default::default() };
+            let ctx = ArgCtx { small_pool: Some(if focus { pool.iter().rev().take(3).cloned().collect() } else { pool.clone() }), explicit_id_8: if focus { 1 } else { 3 }, insert_end_only: true, prefer_enum: if focus { vec![("StorageClass", preferred_sc)] } else { vec![] }, ..Default::default() };
             let mut marker = 0;
             let mut args = RandArgs::new(rng, &mut marker, &ctx, sem.name);
             let out = match catch(|| call(&mut b, &mut args)) {
@@ -275,11 +310,11 @@ fn play(rng: &mut Rng, r: &mut Report, rp: &dyn Fn() -> Json, continue_existing:
 }
 
 pub fn run(cfg: &Cfg, rep: &mut Report) {
-    rep.rule = "histories of 1..50 calls mixing id(), every generated type method (implicit and explicit ids) and type_pointer with operands from a 4-id pool (so repeats are frequent), constants/variables/other emitters, block-instruction calls that fail after reserving an id, on new builders and on builders continuing a module with header bound B; after every call the next-id hook, the returned id and types_global_values are compared with a counter model and a declaration-list model (identity = opcode + operands); at the end bound == next id > every fresh id, no duplicate declarations in all-implicit modules, no shared ids. distinct_nontrivial = distinct (type method, request kind) and (emitter kind, outcome) pairs".into();
+    rep.rule = "histories of 1..50 calls mixing id(), every generated type method (implicit and explicit ids) and type_pointer with operands from a 4-id pool (so repeats are frequent), constants/variables/other emitters, block-instruction calls that fail after reserving an id, on new builders and on builders continuing a module with header bound B; one history in four is a 'type graph' history (only the aggregate / pointer / forward-pointer constructors and a few emitters, a three-id pool of the most recent ids, one storage class for the whole history); after every call the next-id hook, the returned id and types_global_values are compared with a counter model and a declaration-list model (identity = opcode + operands); at the end bound == next id > every fresh id, no duplicate declarations in all-implicit modules, no shared ids. distinct_nontrivial = distinct (type method, request kind) and (emitter kind, outcome) pairs".into();
     let n = cfg.n(100_000, 15_000_000);
     run_stage(cfg, rep, "histories", n, |idx, rng, r| {
         let rp = || crate::util::replay_ref(cfg, "histories", idx);
-        play(rng, r, &rp, idx % 3 == 2);
+        play(rng, r, &rp, idx % 3 == 2, idx % 4 == 1);
     });
     rep.sample(Json::obj().set("example", "type_int(32,0) twice -> same id, one declaration; type_int_id(Some(9),32,0) -> appended with id 9; then type_int(32,0) -> the first matching id"));
 }
